@@ -6,5 +6,5 @@ CONSTANTS
   Emit = TRUE
   Fixed = FALSE
 VIEW View
-INVARIANTS PosAgree
+INVARIANTS OkOrKF PosAgree
 CHECK_DEADLOCK FALSE
